@@ -135,6 +135,8 @@ def run(ctx):
                            outcome='error-or-wrong-state' if not ev['n'] else 'other-version')
             elif ev.get('ev') == 'ProbeRO':
                 sig.update(modified=ev['modified'], refused=ev['refused'], state_ok=bool(ev['n']), variant=ev['variant'])
+            elif ev.get('ev') == 'ProbeStop':
+                sig.update(with_index=ev['with_index'], without_index=ev['without_index'])
             elif ev.get('ev') == 'Probe':
                 sig.update(outcome='error-or-wrong-state' if not ev['n'] else 'other-version')
             ctx.violation(sig, 'trace %d rejected by ZFileTrace at event %s %r%s' % (
@@ -153,7 +155,7 @@ def run(ctx):
                 'end, writer active) the directory is copied and opened (a) without index, (b) with every index file the '
                 'code saved earlier in the run (the 3 newest and the oldest; also cut to half and by one byte; some with '
                 'leftover .tmp/.pack/.old/.index_tmp/.lock files), (c) read-only (directory hash incl. mtimes before/after, '
-                '7 writing calls must raise ReadOnlyError); each probe records which version of the model history the '
+                '7 writing calls must raise ReadOnlyError), (d) read-only with stop = an earlier tid, with and without an index file (time travel); each probe records which version of the model history the '
                 'opened storage answers EVERY query like; TLC validates the traces against ZFileTrace: every probe must '
                 'equal the version the data file alone determines; non-trivial = >=2 saved indexes and >=2 commits',
         'samples': [[e for e in traces[0] if e['ev'].startswith('Probe')][:12]] if traces else [],
